@@ -15,7 +15,7 @@ from odxgen import values as V
 ID = "C05"
 LEAN_TARGETS = ["OdxVerif.Props.C05"]
 DRIVERS = ["drv_codec"]
-THEOREMS = ["OdxVerif.Codec." + t for t in ["C05_error_classes", "C05_never_foreign", "C05_no_invention", "C05_truncated_rejected"]]
+THEOREMS = ["OdxVerif.Codec." + t for t in ["C05_error_classes", "C05_never_foreign", "C05_no_invention", "C05_truncated_rejected", "C05_truncated_rejected_struct", "C05_no_invention_struct"]]
 RULE = ("direct oracle (model-free fuzz): for every generated description (odxgen, through the XML loader) and for every layer of the shipped "
         "examples/somersault.pdx (DiagLayer.decode, decode_response, every Request/Response.decode, DiagService.decode_message): byte strings = "
         "own encodings, every proper prefix of them, single-byte mutations, deletions, extensions, all strings of length <= 2 (quick) / 3 "
@@ -88,15 +88,32 @@ def last_claimed(used: bytes) -> int:
     return n
 
 
-def c05_eval(comp, obj, msg, need=None, trig=None, padding=True, check_invention=True):
-    """(failure | None, dec); failure = (clause, observed, detail)"""
-    dec = O.impl_decode(obj, msg)
+def decode_in_mode(obj, msg, strict=True):
+    """O.impl_decode under odxtools.exceptions.strict_mode = strict (restored afterwards)"""
+    if strict:
+        return O.impl_decode(obj, msg)
+    import odxtools.exceptions as E
+    old = E.strict_mode
+    E.strict_mode = False
+    try:
+        return O.impl_decode(obj, msg)
+    finally:
+        E.strict_mode = old
+
+
+def c05_eval(comp, obj, msg, need=None, trig=None, padding=True, check_invention=True, strict=True):
+    """(failure | None, dec); failure = (clause, observed, detail).  strict=False: the same byte string decoded in lenient mode
+    (odxtools.exceptions.strict_mode = False): termination and 'no other exception type escapes' only -- lenient mode is
+    *meant* to complete damaged PDUs with substitute values, so the two rejection clauses are evaluated in strict mode"""
+    dec = decode_in_mode(obj, msg, strict)
     if dec.status == "hang":
-        dec = O.impl_decode(obj, msg)          # rule out machine load
+        dec = decode_in_mode(obj, msg, strict)          # rule out machine load
         if dec.status == "hang":
             return ("terminates", "hang", {"error": dec.msg}), dec
     if dec.status not in DEC_OK:
         return ("only-decode-errors", dec.status, {"error": dec.msg}), dec
+    if not strict:
+        return None, dec
     if dec.ok:
         if need is not None and len(msg) < need:
             return ("truncated-pdu-rejected", "accepted", {"required_bytes": need, "length": len(msg), "decoded": V.jsonable(dec.value)}), dec
@@ -118,7 +135,7 @@ def slot_need(comp):
         return None
 
 
-def c05_failing(clause, observed, maxlen=2):
+def c05_failing(clause, observed, maxlen=2, strict=True):
     """shrinker predicate: some byte string reproduces (clause, observed) on the candidate description"""
     def f(cand):
         L, err = O.safe_load(cand)
@@ -131,9 +148,9 @@ def c05_failing(clause, observed, maxlen=2):
         pad = has_padding(cand)
         alpha = sorted(set(M.BASE_ALPHABET + M.constants_of(cand)))[:8]
         for fam, b, k in M.byte_strings(rng, own, alpha, maxlen=maxlen, n_random=12, n_mut=8):
-            r, dec = c05_eval(cand, obj, b, need, trigs[k] if k is not None else None, pad, check_invention=k is not None)
+            r, dec = c05_eval(cand, obj, b, need, trigs[k] if k is not None else None, pad, check_invention=k is not None, strict=strict)
             if r and r[0] == clause and r[1] == observed:
-                return ({"pdu": b.hex()}, None, (r[0], r[1], {**r[2], "pdu": b.hex(), "family": fam}))
+                return ({"pdu": b.hex(), "strict": strict}, None, (r[0], r[1], {**r[2], "pdu": b.hex(), "family": fam, "strict": strict}))
         return None
     return f
 
@@ -159,7 +176,8 @@ class Run:
         M.guarded(ctx)
         self.corr = M.CoarseCorrespondence(ctx, canon=canon05)
 
-    def case(self, comp, obj, msg, family, need=None, trig=None, padding=True, invention=True, fixed_features=None, what=None, shrink=True, corr=True):
+    def case(self, comp, obj, msg, family, need=None, trig=None, padding=True, invention=True, fixed_features=None, what=None, shrink=True, corr=True,
+             lenient=True):
         ctx = self.ctx
         r, dec = c05_eval(comp, obj, msg, need, trig, padding, invention)
         ctx.case((sexp.composite(comp), bytes(msg)), nontrivial=family != "own")
@@ -172,6 +190,17 @@ class Run:
             self.rep.report(r[0], r[1], comp, {"pdu": bytes(msg).hex()}, None, {**r[2], "pdu": bytes(msg).hex(), "family": family},
                             failing=c05_failing(r[0], r[1]) if shrink else None, fixed_features=fixed_features,
                             what=what or f"{r[0]}: {r[1]} when decoding {bytes(msg).hex() or '-'} ({family})")
+        if lenient:
+            # the same byte string in lenient mode: "no other exception type escapes" holds for every mode of the library
+            r2, dec2 = c05_eval(comp, obj, msg, strict=False)
+            ctx.case((sexp.composite(comp), bytes(msg), "lenient"), nontrivial=family != "own")
+            ctx.histo("outcome_lenient", dec2.status.split(":")[0])
+            if r2:
+                ff = None if fixed_features is None else list(fixed_features) + ["lenient"]
+                self.rep.report(r2[0], r2[1], comp, {"pdu": bytes(msg).hex(), "strict": False}, None,
+                                {**r2[2], "pdu": bytes(msg).hex(), "family": family, "strict": False},
+                                failing=c05_failing(r2[0], r2[1], strict=False) if shrink else None, fixed_features=ff, extra_features=["lenient"],
+                                what=(what or f"{r2[0]}: {r2[1]} when decoding {bytes(msg).hex() or '-'} ({family})") + " in lenient mode (strict_mode = False)")
         return r, dec
 
 
@@ -371,7 +400,7 @@ def somersault_family(ctx, big):
 
 
 # ------------------------------------------------------------------ generated descriptions
-def run_doc(run, comp, family, rng, big):
+def run_doc(run, comp, family, rng, big, lenient=True):
     ctx = run.ctx
     L, err = O.safe_load(comp)
     if L is None:
@@ -388,7 +417,8 @@ def run_doc(run, comp, family, rng, big):
     alpha = sorted(set(M.BASE_ALPHABET + M.constants_of(comp)))[:9 if big else 7]
     for fam, b, k in M.byte_strings(rng, own, alpha, maxlen=3 if big else 2, n_random=30 if big else 10, n_mut=16 if big else 8,
                                     small_cap=700 if big else None):
-        run.case(comp, obj, b, fam, need, trigs[k] if k is not None else None, pad, invention=(k is not None and fam in ("own", "prefix", "mutation", "deletion")))
+        run.case(comp, obj, b, fam, need, trigs[k] if k is not None else None, pad, invention=(k is not None and fam in ("own", "prefix", "mutation", "deletion")),
+                 lenient=lenient)
 
 
 def run(ctx):
@@ -428,6 +458,23 @@ def run(ctx):
             for fam, b, k in M.byte_strings(rng, own, M.BASE_ALPHABET + [0x22], maxlen=1, n_random=4, n_mut=4):
                 run_.case(c, L[c.name], b, fam, need, None, False, invention=k is not None, shrink=False, corr=(fam in ("own", "prefix", "random") or big))
         run_.corr.flush()
+    # (c') static fields whose items have an input-dependent size (an item can be larger than ITEM-BYTE-SIZE); length keys behind
+    # every kind of DOP (identical, signed, LINEAR: the bit length may come out negative) used by PARAM-LENGTH-INFO objects
+    comps, keys = list(G.enum_dynamic_static_fields()), list(G.enum_length_keys())
+    if not big:
+        comps, keys = rng.sample(comps, 60), rng.sample(keys, 60)
+    for c in comps + keys:
+        L, err = O.safe_load(c)
+        if L is None:
+            ctx.count("documents_rejected_by_loader")
+            continue
+        O.record_features(ctx, c)
+        ctx.histo("family", "enum-dynamic-static-field" if c.name.startswith("F") else "enum-length-key")
+        own, trigs = own_encodings(rng, c, L[c.name], 3)
+        alpha = sorted(set(M.BASE_ALPHABET + [0x22, 0x02, 0x03, 0x05, 0x08, 0x10, 0x18]))
+        for fam, b, k in M.byte_strings(rng, own, alpha, maxlen=2, n_random=12, n_mut=48, small_cap=60):
+            run_.case(c, L[c.name], b, fam, None, None, True, invention=False)
+    run_.corr.flush()
     # (d) random composites
     n_docs = 4200 if big else 1000
     for i in range(n_docs):
@@ -437,7 +484,7 @@ def run(ctx):
         except Exception as e:  # noqa
             ctx.count("generator_error:" + type(e).__name__)
             continue
-        run_doc(run_, c, "random-" + prof.tier, rng, big)
+        run_doc(run_, c, "random-" + prof.tier, rng, big, lenient=big or i % 2 == 0 or G.params_extent(c.params) is None and i % 4 != 1)
         if i % 60 == 59:
             run_.corr.flush()
     run_.corr.flush()
@@ -476,5 +523,6 @@ def replay(ctx, data):
     if L is None:
         return False
     msg = bytes.fromhex(w["pdu"]) if isinstance(w.get("pdu"), str) else bytes.fromhex(V.from_jsonable(w["value"])["pdu"])
-    r, dec = c05_eval(c, L[c.name], msg, slot_need(c), None, has_padding(c), False)
+    strict = w.get("strict", True) is not False and not (isinstance(w.get("value"), dict) and V.from_jsonable(w["value"]).get("strict") is False)
+    r, dec = c05_eval(c, L[c.name], msg, slot_need(c), None, has_padding(c), False, strict=strict)
     return r is None
